@@ -16,6 +16,7 @@ Granularity of actions = the code's atomic sections:
   and on the last barrier: flush pending, DKV checkpoint, ack to the job, reset, parked senders released).
 * `tick`/`stale` — the batcher's timeout callback delivering the token captured by the latest / the
   previous `timer.Set` on `BatchTimedOut`.
+  An item may also be `done` (`SourceComplete`): flush, deactivate the sender, stop the operator when none is left.
 * `armFail`      — environment: the next `OperatorCheckpointComplete` call fails (job unreachable).
 * `redeploy`     — `HandleDeploy` on the running operator (fresh storage, no checkpoints to restore): the
   half-aligned checkpoint of the previous deployment is abandoned, its parked senders are turned away with an
